@@ -19,7 +19,7 @@ var c14aliasPool = []KV{
 }
 
 var c14positions = []struct{ id, sym string }{
-	{"constructor", "New1"}, {"type", "T1"}, {"value-arg", "VarVal"}, {"decorator", "Dec2"}, {"function", "FnInt"}, {"service-value", "Var"},
+	{"constructor", "New1"}, {"type", "T1"}, {"value-arg", "VarVal"}, {"decorator", "Dec2"}, {"function", "FnInt"}, {"service-value", "Var"}, {"type-without-getter", "T2"},
 }
 
 // written imports tried in every table (besides the aliases themselves)
@@ -95,7 +95,9 @@ func c14cfg(table []KV, pos int, r c14ref, base c14ref) (*Cfg, map[string]string
 	cfg.Decorators = []Decorator{{Tag: "tg", Decorator: q(3)}}
 	cfg.Meta.Functions = []KV{{"myfn", q(4)}}
 	cfg.Params = []Param{{"p", "%myfn()%"}, {"q", `%env("X", "d")%:%envInt("Y", 1)%%todo()%`}}
-	cfg.Services = []Service{s, {Name: "val", Value: P(q(5))}}
+	cfg.Services = []Service{s, {Name: "val", Value: P(q(5))}, {Name: "typedNoGetter", Constructor: P(base.written + ".New2"), Type: P("*" + q(6))}}
+	// a type is only printed in getters: without a getter nothing of that package may remain in the file
+	delete(want, "T2")
 	return cfg, want
 }
 
@@ -103,7 +105,7 @@ func init() {
 	Register(&Check{
 		ID:    "C14",
 		Level: "exploration",
-		Rule: "alias tables = all subsets of size <= 2 (quick) / <= 3 (thorough) of 13 aliases (incl. aliases that are string prefixes of other aliases or of referenced paths, and aliases named like the packages the template imports: fmt, os, errors, context, reflect, strconv, github.com) x every written import form that denotes an existing fixture package (bare alias, alias/sub-path, unquoted path, quoted path, \".\") x 6 positions (constructor, type, !value argument, decorator, meta function, service value), one position varied at a time against a base reference; " +
+		Rule: "alias tables = all subsets of size <= 2 (quick) / <= 3 (thorough) of 13 aliases (incl. aliases that are string prefixes of other aliases or of referenced paths, and aliases named like the packages the template imports: fmt, os, errors, context, reflect, strconv, github.com) x every written import form that denotes an existing fixture package (bare alias, alias/sub-path, unquoted path, quoted path, \".\") x 7 positions (constructor, type, !value argument, decorator, meta function, service value, type of a service without getter), one position varied at a time against a base reference; " +
 			"oracle: own denotation function (first path segment equal to an alias is substituted); the selector carrying the position's own symbol must resolve (go/types) to the denoted package, every path imported once, local names distinct, file type-checks (import block = packages used, template's own imports intact). non-trivial = accepted and resolved; distinct = distinct (table, position, written reference)",
 		Assumptions: []string{"fixture packages export identical symbols, so the package a selector resolves to is the only thing that distinguishes a right from a wrong resolution"},
 		BudgetQuick: 240 * time.Second, BudgetThorough: 1200 * time.Second,
